@@ -107,11 +107,12 @@ func main() {
 			cases = append(cases, Case{Kind: "fps", NsBits: bitsOf(float64(r.U64()>>uint(r.Range(1, 63))) / float64(r.Range(1, 9)))})
 		}
 		// (a) histories on a real relay, (c) the F13 scenario in a child process
-		// the two child scenarios run while the histories do
+		// the harness's relay is bound first; then the two child scenarios run while the histories do
+		w := startWorld(res, &cases)
 		childRes := lib.NewResult("C14", a.Seed, a.Tier)
 		childDone := make(chan struct{})
 		go func() { runF13(childRes, &cases); runFlood(childRes); close(childDone) }()
-		runHistories(a, rng.Fork(), res, &cases)
+		runHistories(a, rng.Fork(), w)
 		<-childDone
 		res.Violations = append(res.Violations, childRes.Violations...)
 		res.Notes = append(res.Notes, childRes.Notes...)
